@@ -340,6 +340,23 @@ def rule_T9_hp(tree: Tree) -> RuleResult:
             fn = dotted(n.ast.value.func) if isinstance(n.ast.value, ast.Call) else None
             sel[fn] = fact_holds(cfg.facts_at(n.id), "ciphersuite == b'\\x13\\x03'", True)
     r.ob(sel == {"make_chacha_hp_mask": True, "make_hp_mask": False}, Finding("T9h", f"{QD}:remove_header_protection:mask-selection", f"ChaCha20 header protection only for TLS_CHACHA20_POLY1305_SHA256, AES-ECB otherwise; found {sel}", m.line(rh.node)))
+    # Initial packets: AES header protection whatever the negotiated suite (RFC 9001 §5.2)
+    r.instances += 1
+    cfge = cfg_of(ex.node)
+    hp_suite = {}
+    for c in body_walk(ex.node):
+        if isinstance(c, ast.Call) and dotted(c.func) == "remove_header_protection":
+            arg = next((k.value for k in c.keywords if k.arg == "ciphersuite"), None)
+            ctx = "?"
+            for b, lab in cfge.conditions_at(cfge.node_of(c)):
+                nd = cfge.nodes[b]
+                if nd.kind == "case" and lab == "T":
+                    t = src(nd.ast.pattern)
+                    ctx = "INITIAL" if "INITIAL" in t else "HANDSHAKE|RTT_O" if "HANDSHAKE" in t else "SHORT" if "SHORT" in t else ctx
+            hp_suite[ctx] = src(arg) if arg is not None else None
+    r.ob(hp_suite == {"INITIAL": "None", "HANDSHAKE|RTT_O": "ciphersuite", "SHORT": "ciphersuite"},
+         Finding("T9h", f"{QD}:extract_quic_packet:initial-hp-suite",
+                 f"header protection of Initial packets is always AES-128-ECB: the Initial arm must not hand the negotiated suite to remove_header_protection; found {hp_suite}", m.line(ex.node)))
     # key phase, header form, packet type bits
     r.instances += 1
     kp = [src(s.value) for s in body_walk(ex.node) if isinstance(s, ast.Assign) and dotted(s.targets[0]) == "key_phase"]
